@@ -1779,6 +1779,7 @@ func main() {
 	budget := time.Duration(c.Scale(16, 900)) * time.Second
 	cases := g.templates()
 	cases = append(cases, g.staticNesting()...)
+	cases = append(cases, g.factories()...)
 	cases = append(cases, g.selfdestructScenarios()...)
 	cases = append(cases, g.randomCases(c.Scale(900, 30000))...)
 	// deterministic shuffle, so that a time budget cuts every class alike
@@ -1804,7 +1805,7 @@ func main() {
 		switch {
 		case strings.HasPrefix(k.Class, "tmpl/static"), strings.HasPrefix(k.Class, "scn/static-nest"):
 			return 0
-		case k.Class == "scn/selfdestruct-fixed":
+		case k.Class == "scn/selfdestruct-fixed", strings.HasPrefix(k.Class, "scn/factory-fixed"), strings.HasPrefix(k.Class, "scn/factory-nested"):
 			return 1
 		case strings.HasPrefix(k.Class, "tmpl/child"), strings.HasPrefix(k.Class, "tmpl/selfdestruct"), strings.HasPrefix(k.Class, "tmpl/value"), strings.HasPrefix(k.Class, "tmpl/touch"):
 			return 2
@@ -2482,6 +2483,130 @@ func (g *gen) staticNesting() []*tcase {
 			top = 0xf1
 		}
 		emit(top, levels, fmt.Sprintf("scn/static-nest-random-%d", depth), both[r.Intn(2):][:1])
+	}
+	return out
+}
+
+// ---------------------------------------------------------------- factories: several creations in one call tree
+
+// init codes that jump before they return their runtime code.  kind 0: valid jump; 1: jump into push data;
+// 2: jump to an offset beyond a shorter sibling; 3: JUMPI taken to a valid destination.  `pad` JUMPDEST/PUSH bytes
+// make the lengths (and the positions of the destinations) differ.
+func jumpingInit(kind, pad int, runtime []byte, r *vh.RNG) []byte {
+	a := newLasm()
+	switch kind {
+	case 1:
+		a.pushU(5).op(0x56)    // JUMP to byte 5 ...
+		a.op(0x61, 0x5b, 0x5b) // ... which is push data looking like JUMPDEST
+		a.op(0x00)
+	case 3:
+		a.pushU(1)
+		a.pushL("go").op(0x57, 0xfe)
+	default:
+		a.pushL("go").op(0x56, 0xfe)
+	}
+	for i := 0; i < pad; i++ {
+		if r.Chance(30) {
+			a.op(0x60, 0x5b) // PUSH1 0x5b: data that looks like a destination
+		} else {
+			a.op(0x5b)
+		}
+	}
+	if kind == 2 {
+		// a second hop far into the code
+		a.label("go")
+		a.pushL("far").op(0x56)
+		for i := 0; i < 40; i++ {
+			a.op(0x60, 0x5b)
+		}
+		a.label("far")
+	} else {
+		a.label("go")
+	}
+	// return the runtime code: CODECOPY(0, off, len) RETURN(0, len)
+	a.pushU(uint64(len(runtime)))
+	a.pushL("rt")
+	a.pushU(0).op(0x39).pushU(uint64(len(runtime))).pushU(0).op(0xf3)
+	a.labels["rt"] = len(a.b) // not a JUMPDEST: the runtime code starts here
+	code := a.done()
+	return append(code, runtime...)
+}
+
+func jumpingRuntime(v int) []byte {
+	switch v % 4 {
+	case 0:
+		return []byte{0x60, 0x03, 0x56, 0x5b, 0x60, 0x01, 0x60, 0x00, 0x55, 0x00} // PUSH1 3 JUMP JUMPDEST SSTORE(0,1) STOP
+	case 1:
+		return []byte{0x60, 0x05, 0x56, 0x60, 0x5b, 0x5b, 0x00} // PUSH1 5 JUMP PUSH1 0x5b JUMPDEST STOP (valid: byte 5)
+	case 2:
+		return []byte{0x60, 0x04, 0x56, 0x60, 0x5b, 0x00} // jump into push data
+	}
+	return []byte{0x00}
+}
+
+// a factory: for each init code, copy it from the tail of the factory's own code into memory, CREATE it, and
+// (optionally) CALL the new contract; pre-existing contracts with jumps are called in between
+func factoryCode(inits [][]byte, callChild []bool, between []common.Address) []byte {
+	a := newLasm()
+	for i, ic := range inits {
+		a.pushU(uint64(len(ic)))
+		a.pushL(fmt.Sprintf("init%d", i))
+		a.pushU(0).op(0x39)                                 // CODECOPY(0, off_i, len_i)
+		a.pushU(uint64(len(ic))).pushU(0).pushU(0).op(0xf0) // CREATE(0, 0, len_i)
+		if callChild[i] {
+			a.pushU(0).pushU(0).pushU(0).pushU(0).pushU(0).op(0x85, 0x5a, 0xf1, 0x50) // CALL(gas, child, 0, ...) POP
+		}
+		a.op(0x50)
+		if i < len(between) {
+			a.pushU(0).pushU(0).pushU(0).pushU(0).pushU(0).pushA(between[i]).op(0x5a, []byte{0xf1, 0xf2}[i%2], 0x50)
+			a.pushU(0).pushU(0).pushU(0).pushU(0).pushA(between[i]).op(0x5a, 0xf4, 0x50)
+		}
+	}
+	a.op(0x00)
+	for i, ic := range inits {
+		a.labels[fmt.Sprintf("init%d", i)] = len(a.b)
+		a.b = append(a.b, ic...)
+	}
+	return a.done()
+}
+
+func (g *gen) factories() []*tcase {
+	r := g.r
+	var out []*tcase
+	emit := func(inits [][]byte, class string) {
+		calls := make([]bool, len(inits))
+		for i := range calls {
+			calls[i] = r.Chance(60)
+		}
+		lib := append([]byte{0x60, 0x07, 0x56}, append(make([]byte, 4), 0x5b, 0x60, 0x01, 0x60, 0x02, 0x55, 0x00)...) // jump over 4 STOP bytes
+		lib2 := []byte{0x60, 0x04, 0x56, 0x60, 0x5b, 0x00}                                                            // jump into push data
+		fac := factoryCode(inits, calls, []common.Address{addrLib, addrLib2, addrLib})
+		for _, h := range g.heights() {
+			out = append(out, &tcase{Kind: "call", Height: h, Gas: 3000000, Value: "0x0", Caller: ha(addrCaller), Target: ha(addrMain), Data: "-",
+				Accts: baseAccts(fac, lib, lib2), Class: class})
+		}
+		// the factory itself as the init code of a transaction-level creation
+		out = append(out, &tcase{Kind: "create", Height: g.oneHeight(), Gas: 3000000, Value: "0x0", Caller: ha(addrCaller), Target: "0x0", Data: hexb(fac),
+			Accts: baseAccts(nil, lib, lib2), Class: class + "-top"})
+	}
+	mk := func(kind, pad, rt int) []byte { return jumpingInit(kind, pad, jumpingRuntime(rt), r) }
+	// fixed: short then long, long then short, same length but different destinations, invalid jumps after valid ones
+	emit([][]byte{mk(0, 0, 0), mk(0, 60, 1)}, "scn/factory-fixed")
+	emit([][]byte{mk(0, 60, 1), mk(0, 0, 0)}, "scn/factory-fixed")
+	emit([][]byte{mk(0, 3, 0), mk(1, 3, 0)}, "scn/factory-fixed")
+	emit([][]byte{mk(1, 0, 2), mk(0, 2, 0), mk(2, 5, 1)}, "scn/factory-fixed")
+	emit([][]byte{mk(3, 1, 0), mk(2, 0, 3), mk(0, 90, 2), mk(3, 7, 1)}, "scn/factory-fixed")
+	emit([][]byte{mk(0, 5, 0), mk(0, 5, 0), mk(0, 6, 0)}, "scn/factory-fixed") // identical init code twice, then a different one
+	// nested: an init code that is itself a factory
+	inner := factoryCode([][]byte{mk(0, 30, 1), mk(0, 1, 0)}, []bool{true, false}, nil)
+	emit([][]byte{mk(0, 2, 0), inner, mk(2, 0, 1)}, "scn/factory-nested")
+	for i := 0; i < g.c.Scale(25, 1500); i++ {
+		n := 2 + r.Intn(3)
+		var inits [][]byte
+		for j := 0; j < n; j++ {
+			inits = append(inits, mk(r.Intn(4), r.Intn(100), r.Intn(4)))
+		}
+		emit(inits, "scn/factory-random")
 	}
 	return out
 }
